@@ -15,245 +15,33 @@ import time
 
 ROOT = os.path.dirname(os.path.dirname(os.path.abspath(__file__)))
 
-HARNESS = r'''"""generated by props/c14_xhair.py -- CrossHair contracts over the real lerax space classes"""
-from collections import OrderedDict
-from lerax.space import Box, Dict, Discrete, MultiBinary, MultiDiscrete, Tuple
-
-KEYS = ("a", "b", "c")
-
-
-def leaf(kind: int, l: int, a: int, b: int):
-    """a leaf space chosen by symbolic integers and its description as plain Python data"""
-    if kind == 0:
-        return Discrete(a), ("Discrete", a)
-    if kind == 1:
-        v = (a, b)[:l]
-        return MultiDiscrete(v), ("MultiDiscrete", v)
-    v = (a, b)[:l]
-    return MultiBinary(v), ("MultiBinary", v)
-
-
-def same_hash(x, y) -> bool:
-    return hash(x) == hash(y)
-
-
-# ---------------------------------------------------------------- leaves
-def discrete_eq_hash(a: int, b: int) -> bool:
-    """
-    pre: 0 < a < 6 and 0 < b < 6
-    post: __return__
-    """
-    s, t = Discrete(a), Discrete(b)
-    eq = s == t
-    return eq == (a == b) and ((not eq) or same_hash(s, t)) and (s != t) == (not eq)
-
-
-def multidiscrete_eq_hash(l1: int, l2: int, a0: int, a1: int, a2: int, b0: int, b1: int, b2: int) -> bool:
-    """
-    pre: 1 <= l1 <= 3 and 1 <= l2 <= 3
-    pre: all(0 < n < 5 for n in (a0, a1, a2, b0, b1, b2))
-    post: __return__
-    """
-    u, v = (a0, a1, a2)[:l1], (b0, b1, b2)[:l2]
-    s, t = MultiDiscrete(u), MultiDiscrete(v)
-    eq = s == t
-    return eq == (u == v) and ((not eq) or same_hash(s, t))
-
-
-def multibinary_eq_hash(l1: int, l2: int, a0: int, a1: int, a2: int, b0: int, b1: int, b2: int) -> bool:
-    """
-    pre: 1 <= l1 <= 3 and 1 <= l2 <= 3
-    pre: all(0 < n < 5 for n in (a0, a1, a2, b0, b1, b2))
-    post: __return__
-    """
-    u, v = (a0, a1, a2)[:l1], (b0, b1, b2)[:l2]
-    s, t = MultiBinary(u), MultiBinary(v)
-    eq = s == t
-    return eq == (u == v) and ((not eq) or same_hash(s, t))
-
-
-def multibinary_int_form(a: int, b: int) -> bool:
-    """
-    pre: 0 < a < 6 and 0 < b < 6
-    post: __return__
-    """
-    s, t = MultiBinary(a), MultiBinary((b,))
-    eq = s == t
-    return eq == (a == b) and ((not eq) or same_hash(s, t))
-
-
-def leaf_kinds_eq_hash(k1: int, k2: int, l1: int, l2: int, a0: int, a1: int, b0: int, b1: int) -> bool:
-    """
-    pre: 0 <= k1 <= 2 and 0 <= k2 <= 2 and 1 <= l1 <= 2 and 1 <= l2 <= 2
-    pre: all(0 < n < 4 for n in (a0, a1, b0, b1))
-    post: __return__
-    """
-    s, ds = leaf(k1, l1, a0, a1)
-    t, dt = leaf(k2, l2, b0, b1)
-    eq = s == t
-    return eq == (ds == dt) and ((not eq) or same_hash(s, t))
-
-
-def leaf_vs_non_space(k: int, l: int, a: int, b: int) -> bool:
-    """
-    pre: 0 <= k <= 2 and 1 <= l <= 2 and 0 < a < 4 and 0 < b < 4
-    post: __return__
-    """
-    s, d = leaf(k, l, a, b)
-    return not (s == a) and not (s == (a, b)[:l]) and not (s == d) and not (s == None)  # noqa: E711
-
-
-# ---------------------------------------------------------------- Tuple
-def tuple_eq(l1: int, l2: int, a0: int, a1: int, a2: int, b0: int, b1: int, b2: int) -> bool:
-    """
-    pre: 1 <= l1 <= 3 and 1 <= l2 <= 3
-    pre: all(0 < n < 5 for n in (a0, a1, a2, b0, b1, b2))
-    post: __return__ == ((a0, a1, a2)[:l1] == (b0, b1, b2)[:l2])
-    """
-    s = Tuple(tuple(Discrete(n) for n in (a0, a1, a2)[:l1]))
-    t = Tuple(tuple(Discrete(n) for n in (b0, b1, b2)[:l2]))
-    return s == t
-
-
-def tuple_hash(l1: int, l2: int, a0: int, a1: int, a2: int, b0: int, b1: int, b2: int) -> bool:
-    """
-    pre: 1 <= l1 <= 3 and 1 <= l2 <= 3
-    pre: all(0 < n < 5 for n in (a0, a1, a2, b0, b1, b2))
-    post: __return__
-    """
-    s = Tuple(tuple(Discrete(n) for n in (a0, a1, a2)[:l1]))
-    t = Tuple(tuple(Discrete(n) for n in (b0, b1, b2)[:l2]))
-    return (not ((a0, a1, a2)[:l1] == (b0, b1, b2)[:l2])) or same_hash(s, t)
-
-
-def tuple_mixed_eq_hash(n1: int, n2: int, k0: int, k1: int, j0: int, j1: int, a0: int, a1: int, b0: int, b1: int) -> bool:
-    """
-    pre: 1 <= n1 <= 2 and 1 <= n2 <= 2
-    pre: all(0 <= k <= 2 for k in (k0, k1, j0, j1))
-    pre: all(0 < n < 3 for n in (a0, a1, b0, b1))
-    post: __return__
-    """
-    p = [leaf(k0, 1, a0, a0), leaf(k1, 1, a1, a1)][:n1]
-    q = [leaf(j0, 1, b0, b0), leaf(j1, 1, b1, b1)][:n2]
-    s, t = Tuple(tuple(x for x, _ in p)), Tuple(tuple(x for x, _ in q))
-    eq = s == t
-    return eq == ([d for _, d in p] == [d for _, d in q]) and ((not eq) or same_hash(s, t))
-
-
-def tuple_vs_non_space(l: int, a0: int, a1: int) -> bool:
-    """
-    pre: 1 <= l <= 2 and 0 < a0 < 4 and 0 < a1 < 4
-    post: __return__
-    """
-    parts = tuple(Discrete(n) for n in (a0, a1)[:l])
-    s = Tuple(parts)
-    return not (s == parts) and not (s == parts[0]) and not (s == None)  # noqa: E711
-
-
-# ---------------------------------------------------------------- Dict
-def dict_items(n: int, i0: int, i1: int, a0: int, a1: int):
-    return [(KEYS[i0], Discrete(a0)), (KEYS[i1], Discrete(a1))][:n], [(KEYS[i0], a0), (KEYS[i1], a1)][:n]
-
-
-def dict_eq(n1: int, n2: int, i0: int, i1: int, j0: int, j1: int, a0: int, a1: int, b0: int, b1: int) -> bool:
-    """
-    pre: 1 <= n1 <= 2 and 1 <= n2 <= 2
-    pre: all(0 <= i <= 2 for i in (i0, i1, j0, j1)) and i0 != i1 and j0 != j1
-    pre: all(0 < n < 4 for n in (a0, a1, b0, b1))
-    post: __return__
-    """
-    p, dp = dict_items(n1, i0, i1, a0, a1)
-    q, dq = dict_items(n2, j0, j1, b0, b1)
-    eq = Dict(OrderedDict(p)) == Dict(OrderedDict(q))
-    if dp == dq:
-        return eq            # same keys, same order, same component spaces
-    if dict(dp) != dict(dq):
-        return not eq        # a key or a component differs
-    return True              # same mapping in another key order: left open by the statement
-
-
-def dict_hash(n1: int, n2: int, i0: int, i1: int, j0: int, j1: int, a0: int, a1: int, b0: int, b1: int) -> bool:
-    """
-    pre: 1 <= n1 <= 2 and 1 <= n2 <= 2
-    pre: all(0 <= i <= 2 for i in (i0, i1, j0, j1)) and i0 != i1 and j0 != j1
-    pre: all(0 < n < 4 for n in (a0, a1, b0, b1))
-    post: __return__
-    """
-    p, dp = dict_items(n1, i0, i1, a0, a1)
-    q, dq = dict_items(n2, j0, j1, b0, b1)
-    s, t = Dict(OrderedDict(p)), Dict(OrderedDict(q))
-    hs, ht = hash(s), hash(t)
-    return (not (s == t) and dp != dq) or hs == ht
-
-
-def dict_vs_non_space(n: int, i0: int, i1: int, a0: int, a1: int) -> bool:
-    """
-    pre: 1 <= n <= 2 and 0 <= i0 <= 2 and 0 <= i1 <= 2 and i0 != i1 and 0 < a0 < 4 and 0 < a1 < 4
-    post: __return__
-    """
-    p, _ = dict_items(n, i0, i1, a0, a1)
-    s = Dict(OrderedDict(p))
-    return not (s == OrderedDict(p)) and not (s == dict(p)) and not (s == p[0][1]) and not (s == None)  # noqa: E711
-
-
-# ---------------------------------------------------------------- nestings (depth 2)
-def nested_tuple_of_dict(i: int, j: int, a: int, b: int, c: int, d: int, l1: int, l2: int) -> bool:
-    """
-    pre: 0 <= i <= 2 and 0 <= j <= 2 and 1 <= l1 <= 2 and 1 <= l2 <= 2
-    pre: all(0 < n < 4 for n in (a, b, c, d))
-    post: __return__
-    """
-    s = Tuple((Dict(OrderedDict([(KEYS[i], Discrete(a))])), MultiDiscrete((b, b)[:l1])))
-    t = Tuple((Dict(OrderedDict([(KEYS[j], Discrete(c))])), MultiDiscrete((d, d)[:l2])))
-    same = (i, a, b, l1) == (j, c, d, l2)
-    eq = s == t
-    return eq == same and ((not eq) or same_hash(s, t))
-
-
-def nested_dict_of_tuple(i: int, j: int, l1: int, l2: int, a0: int, a1: int, b0: int, b1: int) -> bool:
-    """
-    pre: 0 <= i <= 2 and 0 <= j <= 2 and 1 <= l1 <= 2 and 1 <= l2 <= 2
-    pre: all(0 < n < 4 for n in (a0, a1, b0, b1))
-    post: __return__
-    """
-    s = Dict(OrderedDict([(KEYS[i], Tuple(tuple(Discrete(n) for n in (a0, a1)[:l1])))]))
-    t = Dict(OrderedDict([(KEYS[j], Tuple(tuple(Discrete(n) for n in (b0, b1)[:l2])))]))
-    same = i == j and (a0, a1)[:l1] == (b0, b1)[:l2]
-    eq = s == t
-    return eq == same and ((not eq) or same_hash(s, t))
-
-
-def nested_tuple_of_tuple(l1: int, l2: int, a0: int, a1: int, b0: int, b1: int, c: int, d: int) -> bool:
-    """
-    pre: 1 <= l1 <= 2 and 1 <= l2 <= 2
-    pre: all(0 < n < 4 for n in (a0, a1, b0, b1, c, d))
-    post: __return__
-    """
-    s = Tuple((Tuple(tuple(Discrete(n) for n in (a0, a1)[:l1])), MultiBinary(c)))
-    t = Tuple((Tuple(tuple(Discrete(n) for n in (b0, b1)[:l2])), MultiBinary(d)))
-    same = (a0, a1)[:l1] == (b0, b1)[:l2] and c == d
-    eq = s == t
-    return eq == same and ((not eq) or same_hash(s, t))
-'''
+PLUGIN = os.path.join(os.path.dirname(os.path.abspath(__file__)), "c14_xhair_plugin.py")
+TEMPLATE = os.path.join(os.path.dirname(os.path.abspath(__file__)), "c14_contracts_template.py")
 
 # condition -> obligation id (the <space>.eq_iff_same / <space>.hash_consistent ids of DESIGN Appendix A)
 CONDITIONS = {
-    "discrete_eq_hash": "Discrete.eq_iff_same+hash_consistent",
-    "multidiscrete_eq_hash": "MultiDiscrete.eq_iff_same+hash_consistent",
-    "multibinary_eq_hash": "MultiBinary.eq_iff_same+hash_consistent",
+    "discrete_eq": "Discrete.eq_iff_same",
+    "discrete_hash": "Discrete.hash_consistent",
+    "multidiscrete_eq": "MultiDiscrete.eq_iff_same",
+    "multidiscrete_hash": "MultiDiscrete.hash_consistent",
+    "multibinary_eq": "MultiBinary.eq_iff_same",
+    "multibinary_hash": "MultiBinary.hash_consistent",
     "multibinary_int_form": "MultiBinary.eq_iff_same@int_vs_tuple",
-    "leaf_kinds_eq_hash": "leaves.eq_iff_same+hash_consistent@across_kinds",
+    "multibinary_int_form_hash": "MultiBinary.hash_consistent@int_vs_tuple",
+    "leaf_kinds_eq": "leaves.eq_iff_same@across_kinds",
     "leaf_vs_non_space": "leaves.eq_iff_same@vs_non_space",
     "tuple_eq": "Tuple.eq_iff_same",
     "tuple_hash": "Tuple.hash_consistent",
-    "tuple_mixed_eq_hash": "Tuple.eq_iff_same+hash_consistent@mixed_leaves",
+    "tuple_mixed_eq": "Tuple.eq_iff_same@mixed_leaves",
+    "tuple_mixed_hash": "Tuple.hash_consistent@mixed_leaves",
     "tuple_vs_non_space": "Tuple.eq_iff_same@vs_non_space",
     "dict_eq": "Dict.eq_iff_same",
     "dict_hash": "Dict.hash_consistent",
     "dict_vs_non_space": "Dict.eq_iff_same@vs_non_space",
-    "nested_tuple_of_dict": "Tuple[Dict].eq_iff_same+hash_consistent",
-    "nested_dict_of_tuple": "Dict[Tuple].eq_iff_same+hash_consistent",
-    "nested_tuple_of_tuple": "Tuple[Tuple].eq_iff_same+hash_consistent",
+    "nested_tuple_of_dict": "Tuple[Dict].eq_iff_same",
+    "nested_dict_of_tuple": "Dict[Tuple].eq_iff_same",
+    "nested_tuple_of_tuple": "Tuple[Tuple].eq_iff_same",
+    "nested_hash": "nested.hash_consistent",
 }
 
 REPLAY = r'''
@@ -282,25 +70,27 @@ def _env():
 class Runner:
     """starts one crosshair process per condition (in parallel) and collects the verdicts later"""
 
-    def __init__(self, scratch, per_condition_timeout, tag="c14"):
+    def __init__(self, scratch, per_condition_timeout, tag="c14", L=2, NH=3):
         self.dir = os.path.join(scratch, f"{tag}_xhair_{os.getpid()}")
         os.makedirs(self.dir, exist_ok=True)
         self.mod = "c14_space_contracts"
+        self.bounds = {"max_arity": L, "sizes_for_hash": f"1..{NH - 1}", "sizes_for_eq": "all positive integers (symbolic)"}
+        self.text = open(TEMPLATE).read().replace("@L@", str(L)).replace("@NH@", str(NH))
         self.path = os.path.join(self.dir, self.mod + ".py")
         with open(self.path, "w") as f:
-            f.write(HARNESS)
+            f.write(self.text)
         self.timeout = per_condition_timeout
         self.crosshair = os.path.join(os.path.dirname(sys.executable), "crosshair")
         self.procs = {}
         self.t0 = time.time()
-        tree = ast.parse(HARNESS)
+        tree = ast.parse(self.text)
         self.fn = {n.name: n for n in tree.body if isinstance(n, ast.FunctionDef)}
 
     def start(self, names=None):
         for name in (names or CONDITIONS):
             node = self.fn[name]
             cmd = [self.crosshair, "check", "--report_all", "--per_condition_timeout", str(self.timeout),
-                   "--per_path_timeout", str(max(5, self.timeout // 4)), f"{self.path}:{node.lineno}"]
+                   "--per_path_timeout", str(max(5, self.timeout // 4)), f"{self.path}:{node.lineno}", "--extra_plugin", PLUGIN]
             self.procs[name] = (subprocess.Popen(cmd, stdout=subprocess.PIPE, stderr=subprocess.PIPE, text=True, env=_env(), cwd=self.dir), time.time())
 
     def post_of(self, name):
@@ -333,7 +123,7 @@ class Runner:
         if errors:
             msg = errors[0].split(": error: ", 1)[1]
             info["message"] = msg
-            m = re.search(r"when calling (\w+)\((.*)\)\s*(\(which returns.*)?$", msg)
+            m = re.search(r"when calling (\w+)\((.*?)\)(?: \(which (?:returns|raises).*)?$", msg)
             kwargs = None
             if m:
                 try:
